@@ -41,7 +41,13 @@ structure St where
   fEst : Option Int := none
   lastRate : Int := 0
   sgte : Bool := false          -- CALLER-SUPPLIED start > ceiling in this case (tag of the known finding)
-  egte : Bool := false          -- ESTIMATED start > ceiling (ceiling 0, or conf target >= 1008 with relay > ceiling)
+  /-- the case lies in the property's domain (`0 < relay fee ≤ ceiling`): outside it the relay
+      floor and the cap contradict each other, so the case is only used for the
+      model-vs-code comparison (X) and never judged by the monitor. -/
+  judge : Bool := true
+  nUnjudged : Nat := 0
+  printedKnown : Nat := 0
+  printedOther : Nat := 0
   pts : List (Nat × Int) := []  -- observed points of the schedule
   fired : List String := []     -- monitor clauses already reported in this case
   -- pub case
@@ -94,10 +100,16 @@ def mismatch (s : St) (detail : String) : IO St := do
   return { s with mismatches := s.mismatches + 1 }
 
 def monitor (s : St) (clause detail : String) : IO St := do
+  -- outside the property's domain: never judged
+  if !s.judge then return s
   -- one report per clause and case
   if s.fired.contains clause then return s
-  if s.monitorFails < 5000 then
-    IO.println s!"MONITOR case={s.caseId} clause={clause} line={s.lines} start_gt_end={if s.sgte then 1 else 0} est_gt_end={if s.egte then 1 else 0} {detail}"
+  -- print caps are separate for lines of the known finding and for all others, so that a flood
+  -- of known-finding lines can never hide a new failure
+  let printed := if s.sgte then s.printedKnown else s.printedOther
+  if printed < 300 then
+    IO.println s!"MONITOR case={s.caseId} clause={clause} line={s.lines} start_gt_end={if s.sgte then 1 else 0} {detail}"
+  let s := if s.sgte then { s with printedKnown := s.printedKnown + 1 } else { s with printedOther := s.printedOther + 1 }
   return { s with monitorFails := s.monitorFails + 1, fired := clause :: s.fired }
 
 def after (ws : List String) : List String :=
@@ -279,10 +291,11 @@ def pubRes (s : St) (ws : List String) : IO St := do
   if out.emitted.length != txs.length || !((out.emitted.zip txs).all (fun p => txEq p.1 p.2)) then
     s ← mismatch s s!"{s.opKind}: emitted txs differ: model={out.emitted.map (fun e => (e.1, e.2.ins, e.2.outs.map (·.2), e.2.locktime))} impl={txs.map (fun t => (t.published, t.ins, t.outs.map (·.2), t.locktime))}"
   -- (S)
+  -- all rate clauses are judged on the transactions actually handed to the wallet for broadcast
   let above := ffok && ffstart > ffend
-  if above && !(s.sgte || s.egte) then s := { s with nSgte := s.nSgte + 1 }
   if s.opKind == "init" then
-    s := { s with sgte := above && s.req.start.isSome, egte := above && s.req.start.isNone }
+    if above then s := { s with nSgte := s.nSgte + 1 }
+    s := { s with sgte := above && s.req.start.isSome && s.judge }
   let published := ev == "Published" || ev == "Replaced"
   if published then
     -- the claimed fee must be the real fee of the published tx
@@ -293,26 +306,21 @@ def pubRes (s : St) (ws : List String) : IO St := do
     | none => s ← monitor s "fee-accounting" "published event without a transaction"
     if rate > s.req.maxFeeRate then
       s ← monitor s "rate-above-max" s!"published at rate {rate} > MaxFeeRate {s.req.maxFeeRate}"
+    if rate > s.mfra then
+      s ← monitor s "rate-above-ceiling" s!"published at rate {rate} > ceiling {s.mfra}"
     match s.lastPubRate with
     | some l =>
       if rate < l then s ← monitor s "rate-decreased" s!"published rate {l} -> {rate}"
     | none => pure ()
-    s := { s with lastPubRate := some rate, nontriv := s.nontriv + 1 }
-  if ffok then
-    match s.lastCur with
-    | some l =>
-      if cur < l then s ← monitor s "rate-decreased" s!"fee function rate {l} -> {cur} at height {s.opHeight}"
-    | none => pure ()
-    s := { s with lastCur := some cur }
-    if cur > ffend then
-      s ← monitor s "rate-above-ceiling" s!"rate={cur} ceiling={ffend}"
-    if ffend != s.mfra then
+    if s.req.deadline - s.opHeight ≤ 1 then
+      if rate != s.mfra then
+        s ← monitor s "below-ceiling-at-deadline" s!"height={s.opHeight} deadline={s.req.deadline} published rate={rate} ceiling={s.mfra}"
+      else s := { s with nCeiling := s.nCeiling + 1 }
+    if ev == "Published" && s.req.start.isNone && rate < s.relay then
+      s ← monitor s "below-relay-floor" s!"first tx published at {rate} < relay fee {s.relay} (estimated start)"
+    if ffok && ffend != s.mfra then
       s ← monitor s "ceiling" s!"fee function ceiling {ffend} != MaxFeeRateAllowed {s.mfra}"
-    if s.req.deadline - s.opHeight ≤ 1 && cur != ffend then
-      s ← monitor s "below-ceiling-at-deadline" s!"height={s.opHeight} deadline={s.req.deadline} rate={cur} ceiling={ffend}"
-    if s.req.deadline - s.opHeight ≤ 1 && cur == ffend then s := { s with nCeiling := s.nCeiling + 1 }
-    if s.opKind == "init" && s.req.start.isNone && width > 0 && s.mfra ≥ s.relay && ffstart < s.relay then
-      s ← monitor s "below-relay-floor" s!"estimated starting rate {ffstart} < relay fee {s.relay}"
+    s := { s with lastPubRate := some rate, nontriv := s.nontriv + 1 }
   if ev == "Published" then s := { s with nPublished := s.nPublished + 1 }
   else if ev == "Replaced" then s := { s with nReplaced := s.nReplaced + 1 }
   else if ev == "Failed" then s := { s with nFailed := s.nFailed + 1, nontriv := s.nontriv + 1 }
@@ -336,7 +344,7 @@ def step (s : St) (line : String) : IO St := do
     chk s "dust_p2tr" (dustOf "p2tr")
   | "CASE" :: id :: rest =>
     let kind := (kv? rest "kind").getD ""
-    let mut s := { s with caseId := id, kind := kind, cases := s.cases + 1, ff := none, sgte := false, egte := false,
+    let mut s := { s with caseId := id, kind := kind, cases := s.cases + 1, ff := none, sgte := false, judge := true,
                           pts := [], fired := [], lastPubRate := none, lastCur := none, rcd := {}, opTxs := [] }
     if s.samples < 2 || (kind == "pub" && s.samples < 5 && s.nPub < 3) then
       IO.println s!"SAMPLE {line}"
@@ -347,6 +355,9 @@ def step (s : St) (line : String) : IO St := do
       s := { s with fEnd := e, fCt := ct, fStartOpt := optInt (kv? rest "start"),
                     fEst := optInt (kv? rest "est"), fRelay := (kvInt? rest "relay").getD 0,
                     fEstPath := (kv? rest "start") == some "none", nFF := s.nFF + 1 }
+      let rl := (kvInt? rest "relay").getD 0
+      let inDomain := decide (0 < rl) && decide (rl ≤ e)
+      s := { s with judge := inDomain, nUnjudged := s.nUnjudged + (if inDomain then 0 else 1) }
     if kind == "pub" then
       let script := (kv? rest "script").getD ""
       s := { s with
@@ -423,7 +434,7 @@ def step (s : St) (line : String) : IO St := do
       -- (S)
       let above := impl.start > impl.end_
       s := { s with fStart := impl.start, fWidth := impl.width, lastRate := impl.cur,
-                    sgte := above && s.fStartOpt.isSome, egte := above && s.fStartOpt.isNone,
+                    sgte := above && s.fStartOpt.isSome && s.judge,
                     nSgte := s.nSgte + (if above then 1 else 0), maxWidth := max s.maxWidth impl.width,
                     nontriv := s.nontriv + 1 }
       if impl.end_ != s.fEnd then
@@ -471,24 +482,18 @@ def step (s : St) (line : String) : IO St := do
     let close := 2 * diff ≤ w.natAbs + (b.natAbs * 1000) / 2 ^ 49 + 1
     if !close && !(impl == s.req.maxFeeRate && b * 1000 ≥ impl * w) then
       s ← monitor s "ceiling" s!"MaxFeeRateAllowed={impl} budget={b} weight={w} maxrate={s.req.maxFeeRate}"
-    return s
+    -- the property's domain: 0 < relay fee <= ceiling
+    let inDomain := decide (0 < s.relay) && decide (s.relay ≤ impl)
+    return { s with judge := inDomain, nUnjudged := s.nUnjudged + (if inDomain then 0 else 1) }
   | "op" :: k :: rest =>
     -- tag of the known finding (starting rate above the ceiling): known before the
     -- operation from the case header and the implementation's own ceiling
     let h := (kvInt? rest "height").getD 0
     let ct : Int := if s.req.deadline - h < 0 then 0 else s.req.deadline - h
-    let estStart : Option Int :=
-      if ct ≥ 1008 then some s.relay
-      else match s.est with
-        | none => none
-        | some e => if e < s.relay then none else if s.mfra != 0 && e > s.mfra then some s.mfra else some e
     let preCaller := match s.req.start with
-      | some st => ct ≥ 2 && st > s.mfra
+      | some st => ct ≥ 2 && st > s.mfra && s.judge
       | none => false
-    let preEst := match s.req.start, estStart with
-      | none, some st => ct ≥ 2 && st > s.mfra
-      | _, _ => false
-    let s := if k == "init" then { s with sgte := preCaller, egte := preEst } else s
+    let s := if k == "init" then { s with sgte := preCaller } else s
     return { s with opKind := k, opHeight := (kvInt? rest "height").getD 0,
                     opMp := (parseList ((kv? rest "mp").getD "-")).map parseAns,
                     opPub := ((parseList ((kv? rest "pub").getD "-")).head?.map parseAns).getD .ok,
@@ -526,6 +531,7 @@ def main : IO Unit := do
   IO.println s!"STAT ff_max_width={s.maxWidth}"
   IO.println s!"STAT ceiling_reached={s.nCeiling}"
   IO.println s!"STAT start_above_end_cases={s.nSgte}"
+  IO.println s!"STAT cases_outside_domain_not_judged={s.nUnjudged}"
   IO.println s!"STAT pub_cases={s.nPub}"
   IO.println s!"STAT txs_seen={s.nTx}"
   IO.println s!"STAT txs_with_required_outputs={s.nReqTx}"
@@ -538,3 +544,5 @@ def main : IO Unit := do
   IO.println s!"STAT err_not_enough_budget={s.nBudgetErr}"
   IO.println s!"STAT mismatches={s.mismatches}"
   IO.println s!"STAT monitor_failures={s.monitorFails}"
+  IO.println s!"STAT monitor_failures_known_finding_tagged={s.printedKnown}"
+  IO.println s!"STAT monitor_failures_untagged={s.printedOther}"
